@@ -17,7 +17,13 @@
       argument exactly once (one call of the parsed-value evaluator, inside the
       map over the argument list), pass the collected values to the operator,
       and return its result wrapped as a new value with no local call in
-      between; the lazy operation evaluator evaluates nothing itself.
+      between; the lazy operation evaluator evaluates nothing itself;
+  K4  at most once per use: if / ?: / and / or touch operands drawn from their
+      operand list only inside the per-element code (nothing is parsed or
+      evaluated again after the iteration, no pre-pass), which evaluates at most
+      once per element and has a success path that evaluates nothing (the
+      analysis shared with C05 K2/K3); for the collection operators the same
+      discipline is C13 K2 and C14 K2/K4.
 """
 from .core import callee_of, callee_path, strip_refs, strip_payload, show_expr
 from .engine import Inconclusive
@@ -103,3 +109,12 @@ def run(ctx):
                         good = good or indirect
             ctx.check(good, "K3.result", "%s operation returns the operator's result as a new value (%s)" % (t.role, cfg),
                       "the operation evaluator's result is %s (expected execute(..).map(Evaluated::New))" % show_expr(r), where=ev.where(), fn=ev.key, nontrivial=True)
+
+        # ---- K4 at most once per use: the lazy operators over an operand list
+        from . import table as T
+        from .c05 import once_per_use
+        for name in ("if", "and", "or"):
+            e = T.entry(roles.tables, name)
+            ctx.need(e is not None, "%s is not bound" % name)
+            once_per_use(ctx, facts, roles, p, cfg, name, e, K2="K4", K3="K4")
+
